@@ -208,4 +208,19 @@ def retry : Nat → Ctx → Node → List String → Log → R × Log
       | (e, l) => (e, log ++ l)
 end
 
+
+/-! ## keyword routing of `Detector.build_antennas` for a detector made of sub-detectors
+
+Each sub-detector is represented by the parameter names of its own `build_antennas`.  If all
+signatures are identical the arguments are passed straight down (a keyword a sub does not accept is
+then a `TypeError`, `none`); otherwise each sub is called with the keywords whose names are
+parameters of its `build_antennas`. -/
+def buildRoute (subs : List (List String)) (kw : List String) : Option (List (List String)) :=
+  match subs with
+  | [] => some []
+  | p :: r =>
+    if r.all (· == p) then
+      if kw.all (p.contains ·) then some (subs.map (fun _ => kw)) else none
+    else some (subs.map (fun q => kw.filter (q.contains ·)))
+
 end Det
